@@ -222,6 +222,12 @@ WireClean ==
   \A i \in DOMAIN chain : \A j \in DOMAIN chain[i] :
      chain[i][j].k \in {"C", "D", "U"} /\ chain[i][j].o = EmptyMap
 
+(* C02/C04: no update is sent twice.  Meaningful where every local update   *)
+(* is unique (phased configurations: own values per replica, no repeats).  *)
+NoDuplicateSend ==
+  LET all == Flatten(chain)
+  IN \A i, j \in DOMAIN all : (i # j /\ all[i].k = "U") => all[i] # all[j]
+
 (* C12: a replica is handed a snapshot only while it is entirely empty      *)
 (* (action property, checked as an invariant on the in-flight record)      *)
 TypeOK ==
